@@ -81,6 +81,28 @@ func (e *Env) Tx(code []byte, signers []*txgen.Key) (*types.Transaction, error) 
 	return mt.IntoImmutable()
 }
 
+// DeployTx builds a NeoVM contract deployment (gas price 0) signed by the given keys.
+func (e *Env) DeployTx(code []byte, name string, signers []*txgen.Key) (*types.Transaction, error) {
+	mt, err := cutils.NewDeployTransaction(code, name, "1.0", "verif", "v@v", "verif contract", payload.NEOVM_TYPE)
+	if err != nil {
+		return nil, err
+	}
+	e.nonce++
+	mt.Nonce, mt.GasPrice, mt.GasLimit = e.nonce, 0, GasLimit
+	if len(signers) > 0 {
+		mt.Payer = signers[0].Address()
+	}
+	h := mt.Hash()
+	for _, k := range signers {
+		sig, err := k.Sign(h[:])
+		if err != nil {
+			return nil, err
+		}
+		mt.Sigs = append(mt.Sigs, types.Sig{PubKeys: []keypair.PublicKey{k.Pub}, M: 1, SigData: [][]byte{sig}})
+	}
+	return mt.IntoImmutable()
+}
+
 // ProbeTx is Tx for pre-execution only: the signature bytes are placeholders (the
 // pre-execution path, like block execution, derives the witness set from the signature
 // *programs* and never verifies signature data; real signing of thousands of probes
